@@ -298,6 +298,32 @@ where
             };
             format!("h{} {} {}", hex(&text), parsed, opt_ix(Q::unit_from_symbol(sym)))
         }
+        "fmtnest" => {
+            // re-entrant formatting: the sink formats the SAME value again for every chunk it receives
+            // (a logging sink stamping each chunk would do that); only "does it return" matters
+            let q = Q::new(dec_amt(a[1]), u(a[0]));
+            struct Nest<'a, T: core::fmt::Display> {
+                inner: &'a T,
+                depth: usize,
+                out: String,
+            }
+            impl<'a, T: core::fmt::Display> core::fmt::Write for Nest<'a, T> {
+                fn write_str(&mut self, s: &str) -> core::fmt::Result {
+                    self.out.push_str(s);
+                    if self.depth < 2 {
+                        let mut n = Nest { inner: self.inner, depth: self.depth + 1, out: String::new() };
+                        core::fmt::write(&mut n, format_args!("{:>9.2}|{}", self.inner, self.inner))?;
+                        self.out.push_str(&n.out);
+                    }
+                    Ok(())
+                }
+            }
+            let mut n = Nest { inner: &q, depth: 0, out: String::new() };
+            match core::fmt::write(&mut n, format_args!("{}", q)) {
+                Ok(()) => "ok".to_string(),
+                Err(_) => "fmt-error".to_string(),
+            }
+        }
         "fsym" => {
             let s = unhex(a[0]);
             format!(
